@@ -761,5 +761,7 @@ KILLS = [
     '_get_lock_limits: single record locks (a, a+1)  => state.lockset, lock.spurious-denial ; limit 2**25-2 -> 2**25 => lock.range-check',
     'open_file: default-vs-clause test dropped  => open.accepted.default-vs-sharing-clause',
     'RandomFile.put checks record+1 for locks  => access.locked-record-allowed, access.unlocked-refused',
+    "RandomFile.get/put: lock test moved before the pointer update, on `pos or LOC` (reviewer's seeded change: an access without record number tests the previous record) => ./check red: access.locked-record-allowed (GET #2 with the pointer on a record locked through #1) and access.unlocked-refused",
+    "RandomFile.put: record written (and flushed) before the lock test => ./check red: access.refused-put-changed-record",
     "SURVIVED (equivalent): open_file '(lock_type == RW)' disjunct dropped - the LOCK x ACCESS disjunct refuses the same opens because access defaults to RW whenever a lock clause is given",
 ]
